@@ -413,6 +413,18 @@ fn c03(cfg: &CCfg, e: &Exec, f: &Facts, vs: &mut Vec<Violation>, nt: &mut bool) 
             .map(|c| c.iter().any(|ci| ci > rp && ci < q1idx))
             .unwrap_or(false);
         if cancelled {
+            // "transmits": written is not enough on a transport that only puts on the medium what
+            // it was asked to flush - by the time everything has settled the peer has it
+            let delivered = e.recs[..*q1idx].iter().any(|r| matches!(r, Rec::PeerSaw { side: 0, msg: Msg::Cancel { id: cid, .. } } if cid == id));
+            let transport_failed = e.recs[..*q1idx].iter().any(|r| matches!(r, Rec::T { side: 0, res: Res::Err, .. }));
+            if !delivered && !transport_failed && cfg.fault.is_none() {
+                v(
+                    vs,
+                    "C03-R4-cancel-not-delivered",
+                    cfg,
+                    format!("the cancellation for abandoned call {i} (id {id}) was written but never reached the peer (left unflushed with the dispatch idle)"),
+                );
+            }
             continue;
         }
         // end-events (weak, sound reading)
